@@ -69,6 +69,35 @@ def emit(repo, spec, H):
     out.append("(* hdf/src/hfile.c: presence (1) of the reference-count statements the file machine of the model mirrors *)")
     for n, v in facts:
         out.append("Definition %s : Z := %d." % (n, v))
+    # ---- hfile.c Hopen, branch "already open read-only, write access requested": the new stream is opened before the
+    #      old one is closed (a refused reopen must leave the shared file record untouched)
+    rawh = H.raw(repo, "hdf/src/hfile.c")
+    hb = H.func_body(rawh, "Hopen")
+    mo = re.search(r"HI_OPEN\s*\(\s*file_rec->path", hb)
+    mc = re.search(r"HI_CLOSE\s*\(\s*file_rec->file\s*\)", hb)
+    ms = re.search(r"HIsync\s*\(\s*file_rec\s*\)", hb)
+    if not (mo and mc and ms):
+        raise ValueError("Hopen: reopen branch not understood")
+    out.append("(* hdf/src/hfile.c Hopen, reopen for writing: 1 iff HI_OPEN(file_rec->path, ...) comes before HI_CLOSE(file_rec->file) *)")
+    out.append("Definition Hopen_reopen_opens_before_closing : Z := %d." % (1 if ms.start() < mo.start() < mc.start() else 0))
+    # ---- mfan.c ANend: the annotation types whose ids are removed from the atom group and whose tree is freed
+    rawa = H.raw(repo, "hdf/src/mfan.c")
+    ab = H.func_body(rawa, "ANend")
+    aenv = {}
+    aenv.update(H.all_enums(H.src(repo, "hdf/src/hdf.h")))
+    types = set()
+    for mm in re.finditer(r"an_tree\[\s*(AN_[A-Z_]+)\s*\]\s*!=\s*NULL\s*\)\s*\{(.*?)tbbtdfree\s*\(\s*file_rec->an_tree\[\s*(AN_[A-Z_]+)\s*\]", ab, flags=re.S):
+        if mm.group(1) == mm.group(3) and re.search(r"HAremove_atom\s*\(\s*ann_entry->ann_id\s*\)", mm.group(2)):
+            types.add(aenv[mm.group(1)])
+    ml = re.search(r"for\s*\(\s*(\w+)\s*=\s*(AN_[A-Z_]+)\s*;\s*\1\s*(<=|<)\s*(AN_[A-Z_]+)\s*;\s*\1\+\+\s*\)\s*\{(.*?)tbbtdfree\s*\(\s*file_rec->an_tree\[\s*\1\s*\]",
+                   ab, flags=re.S)
+    if ml and re.search(r"HAremove_atom\s*\(\s*ann_entry->ann_id\s*\)", ml.group(5)):
+        lo, hi = aenv[ml.group(2)], aenv[ml.group(4)]
+        types.update(range(lo, hi + (1 if ml.group(3) == "<=" else 0)))
+    out.append("(* hdf/src/hdf.h ann_type; hdf/src/mfan.c ANend: annotation types whose ids ANend removes from ANIDGROUP *)")
+    for n in ("AN_DATA_LABEL", "AN_DATA_DESC", "AN_FILE_LABEL", "AN_FILE_DESC"):
+        out.append("Definition %s : Z := %s." % (n, H.zlit(aenv[n])))
+    out.append("Definition ANend_types_released : list Z := [%s]." % "; ".join(H.zlit(t) for t in sorted(types)))
     # ---- mfsd.c: SD id arithmetic --------------------------------------------------------------
     sf = "mfhdf/src/mfsd.c"
     stxt = H.src(repo, sf)
